@@ -140,3 +140,95 @@ theorem evalRuleLk_sound (lk : String → List Tuple) (r : Rule) (hagg : r.hasAg
   simpa using this
 
 end ILV.DL
+
+/-! ### completeness of the Spec's clause evaluator (rules without comparison literals) -/
+namespace ILV.DL
+
+/-- every binding of `e` is a binding of `env`. -/
+def Agrees (e env : Env) : Prop := ∀ x v, e.lookup x = some v → env.lookup x = some v
+
+theorem lookup_cons_eq (x : String) (v : Value) (e : Env) (y : String) :
+    ((x, v) :: e).lookup y = if y == x then some v else e.lookup y := by
+  simp only [List.lookup]
+  cases h : y == x <;> simp
+
+/-- if `env` maps the atom onto `t` and `e` agrees with `env`, the evaluator's unification
+    succeeds and its result still agrees with `env`. -/
+theorem matchArgs_complete : ∀ (args : List Term) (t : List Value) (env e : Env),
+    Matches args t env → Agrees e env → ∃ e', matchArgs args t e = some e' ∧ Agrees e' env
+  | [], [], _, e, _, ha => ⟨e, rfl, ha⟩
+  | .var x :: as, v :: vs, env, e, hm, ha => by
+    unfold matchArgs
+    cases hl : e.lookup x with
+    | some w =>
+      have : env.lookup x = some w := ha x w hl
+      rw [hm.1] at this
+      cases this
+      simp only [beq_self_eq_true, if_true]
+      exact matchArgs_complete as vs env e hm.2 ha
+    | none =>
+      simp only
+      apply matchArgs_complete as vs env _ hm.2
+      intro y w hy
+      rw [lookup_cons_eq] at hy
+      by_cases hyx : y = x
+      · subst hyx; simp at hy; subst hy; exact hm.1
+      · have : (y == x) = false := by simpa using hyx
+        rw [this] at hy; exact ha y w hy
+  | .const c :: as, v :: vs, env, e, hm, ha => by
+    unfold matchArgs
+    have : (c == v) = true := by simpa using hm.1
+    simp only [this, if_true]
+    exact matchArgs_complete as vs env e hm.2 ha
+  | .wild :: as, _ :: vs, env, e, hm, ha => by
+    unfold matchArgs
+    exact matchArgs_complete as vs env e hm ha
+  | [], _ :: _, _, _, hm, _ => hm.elim
+  | .var _ :: _, [], _, _, hm, _ => hm.elim
+  | .const _ :: _, [], _, _, hm, _ => hm.elim
+  | .wild :: _, [], _, _, hm, _ => hm.elim
+
+theorem evalPos_complete (lk : String → List Tuple) (env : Env) : ∀ (atoms : List Atom) (envs : List Env) (e : Env),
+    PosSat lk atoms env → e ∈ envs → Agrees e env → ∃ e', e' ∈ evalPos lk atoms envs ∧ Agrees e' env
+  | [], envs, e, _, he, ha => ⟨e, by simpa [evalPos] using he, ha⟩
+  | a :: as, envs, e, hs, he, ha => by
+    unfold evalPos
+    obtain ⟨t, ht, hm⟩ := hs a (List.mem_cons_self ..)
+    obtain ⟨e1, he1, ha1⟩ := matchArgs_complete a.args t env e hm ha
+    apply evalPos_complete lk env as _ e1 (fun b hb => hs b (List.mem_cons_of_mem _ hb)) _ ha1
+    exact List.mem_flatMap.2 ⟨e, he, List.mem_filterMap.2 ⟨t, ht, he1⟩⟩
+
+/-- unification only looks at the variables of the atom. -/
+theorem matchArgs_none_of_agree : ∀ (args : List Term) (t : List Value) (env e : Env),
+    (∀ x, Term.var x ∈ args → ∃ v, e.lookup x = some v) → Agrees e env →
+    matchArgs args t env = none → matchArgs args t e = none
+  | [], [], _, _, _, _, h => by simp [matchArgs] at h
+  | .var x :: as, v :: vs, env, e, hb, ha, h => by
+    obtain ⟨w, hw⟩ := hb x (List.mem_cons_self ..)
+    have hwe := ha x w hw
+    unfold matchArgs at h ⊢
+    rw [hwe] at h; rw [hw]
+    simp only at h ⊢
+    split at h
+    · rename_i hwv
+      simp only [hwv, if_true]
+      exact matchArgs_none_of_agree as vs env e (fun y hy => hb y (List.mem_cons_of_mem _ hy)) ha h
+    · rename_i hwv
+      simp [hwv]
+  | .const c :: as, v :: vs, env, e, hb, ha, h => by
+    unfold matchArgs at h ⊢
+    split at h
+    · rename_i hcv
+      simp only [hcv, if_true]
+      exact matchArgs_none_of_agree as vs env e (fun y hy => hb y (List.mem_cons_of_mem _ hy)) ha h
+    · rename_i hcv
+      simp [hcv]
+  | .wild :: as, _ :: vs, env, e, hb, ha, h => by
+    unfold matchArgs at h ⊢
+    exact matchArgs_none_of_agree as vs env e (fun y hy => hb y (List.mem_cons_of_mem _ hy)) ha h
+  | [], _ :: _, _, _, _, _, _ => by simp [matchArgs]
+  | .var _ :: _, [], _, _, _, _, _ => by simp [matchArgs]
+  | .const _ :: _, [], _, _, _, _, _ => by simp [matchArgs]
+  | .wild :: _, [], _, _, _, _, _ => by simp [matchArgs]
+
+end ILV.DL
